@@ -49,7 +49,12 @@ func WithSSHConfigFile(s string) util.Option {
 
 		sshF, err := util.ResolveFilePath(s)
 		if err != nil {
-			return util.ErrFileNotFoundError
+			return fmt.Errorf(
+				"%w: %w: '%s'",
+				util.ErrBadOption,
+				util.ErrFileNotFoundError,
+				s,
+			)
 		}
 
 		a.ConfigFile = sshF
@@ -105,7 +110,12 @@ func WithSSHKnownHostsFile(s string) util.Option {
 
 		sshF, err := util.ResolveFilePath(s)
 		if err != nil {
-			return util.ErrFileNotFoundError
+			return fmt.Errorf(
+				"%w: %w: '%s'",
+				util.ErrBadOption,
+				util.ErrFileNotFoundError,
+				s,
+			)
 		}
 
 		a.KnownHostsFile = sshF
